@@ -19,7 +19,7 @@ const rule = "every step kind x every table of the initial schema x column {a, b
 	"each Pos lies inside the statement (or rebuild group) of that table; exit status non-zero iff the window holds a destructive file. " +
 	"non-trivial = window with >=1 destructive file or >=1 rebuild; distinct key = (authoring routes, step kinds, N)"
 
-var tables = []string{"base", "other", "events", "t3", "events", "_meta", "news"} // incl. names made of the letters of the rebuild prefix new_
+var tables = []string{"base", "other", "events", "t3", "events", "_meta", "news", "Users"} // incl. names made of the letters of the rebuild prefix new_
 var cols = []string{"a", "b", "c", "d", "g"}
 var kinds = []string{"add-table", "drop-table", "add-column", "drop-column", "add-virtual", "drop-virtual", "add-index", "drop-index", "rebuild-omit", "rebuild-keep", "temp-table", "temp-column", "drop-column", "add-column", "drop-readd-column", "drop-recreate-table", "rebuild-omit-virtual-and-later", "rebuild-omit-virtual-and-later", "add-column"}
 
@@ -85,7 +85,7 @@ func TestCheck(t *testing.T) {
 	// one file after the fixed init file, so that each kind is judged on a pre-existing object whatever the random part draws
 	seen := map[string]bool{}
 	for _, k := range kinds {
-		for _, tb := range []string{"base", "other", "events"} {
+		for _, tb := range []string{"base", "other", "events", "Users"} {
 			for _, cn := range []string{"a", "b"} {
 				for _, route := range []string{"hand", "diff"} {
 					if route == "diff" && handOnly(k) || seen[k+tb+cn+route] {
